@@ -34,6 +34,12 @@ Inductive result :=
 | ROther.           (* any other error: unreadable receipt, no compass, unknown proof type, the
                        action's own follow-up failed *)
 
+(** The guards an action type's attester puts between the winner and its follow-up
+    (x/evm/keeper/attest_*.go, extracted per attester into Gen/C07.v): is the processed-tx set
+    consulted, is the last compass contract required, is VerifyAgainstTX called. *)
+Record guard_set := { g_processed : bool; g_compass : bool; g_verify : bool }.
+Definition full_guards : guard_set := {| g_processed := true; g_compass := true; g_verify := true |}.
+
 Definition flushes (r : result) : bool :=
   match r with RNil | RNotVerified | RTxFailed => true | _ => false end.
 
@@ -49,6 +55,9 @@ Section Attest.
   Variables B S V D H T W E : Type.
 
   Variable kind_of : B -> kind.
+  (** which guards the attester of an action type runs (all of them, through the shared
+      attestTransactionIntegrity, as long as the source says so) *)
+  Variable guards : kind -> guard_set.
   (** m.Fees != nil (submit_logic_call and user contract uploads; set once the gas estimate is
       elected, cleared again by a retry) *)
   Variable fees_present : B -> bool.
@@ -183,17 +192,18 @@ Section Attest.
         let '(q, n) := enqueue_all bs (queue s) (next_id s) in
         commit RNil q n (processed s) (effects s) wd
       | WTx t receipt =>
+        let gs := guards (kind_of (m_body m)) in
         let p := tx_hash t :: processed s in        (* deferred setTxAsAlreadyProcessed *)
         match receipt with
         | None => (s, ROther)
         | Some st =>
           if negb (st =? receipt_status_successful) then
             commit RTxFailed (queue s) (next_id s) p (effects s) (world s)
-          else if mem_hash (tx_hash t) (processed s) then (s, RAlreadyProcessed)
-          else if negb (compass_present (world s)) then (s, ROther)
+          else if g_processed gs && mem_hash (tx_hash t) (processed s) then (s, RAlreadyProcessed)
+          else if g_compass gs && negb (compass_present (world s)) then (s, ROther)
           else
             let vs := valset_at (world s) (m_vsid m) in
-            match verify m vs (tx_data t) with
+            match (if g_verify gs then verify m vs (tx_data t) else Some O) with
             | None => commit RNotVerified (queue s) (next_id s) p (effects s) (world s)
             | Some i =>
               match apply_effect env m t (world s) with
